@@ -138,9 +138,15 @@ class ColumnBackend(ArraySchemaBackend):
             else:
                 if getattr(schema, "drop_invalid_rows", False):
                     # replace the check_obj with the validated
-                    check_obj = validate_column(
+                    validated = validate_column(
                         check_obj, column_name, return_check_obj=True
                     )
+                    if is_table(validated):
+                        check_obj = validated
+                    else:
+                        # with custom parsers the parsed column comes back
+                        # on its own: keep the rows that were not dropped
+                        check_obj = check_obj.loc[validated.index]
 
                 validated_column = validate_column(
                     check_obj,
